@@ -23,7 +23,7 @@ RULE = (
     "integration over all physical types, statement-by-statement drivers of stream.triple()/quad() that hand control back "
     "while rows are pending, and parse_jelly_flat generators of both integrations (incl. twins: streams with equal stream options and different content); workloads with equal configuration may share one "
     "SerializerOptions object, as callers do) whose steps are interleaved by a drawn schedule owned by the harness; (b) a drawn prior history of 0..5 other streams created, partly used, abandoned or "
-    "failed with an exception before the workload runs; oracle: every workload's output (frame bytes / parsed events) is "
+    "failed with an exception before the workload runs; oracle: process-wide knobs (rdflib.NORMALIZE_LITERALS, recursion limit, decimal context, locale, cwd, ...) are what they were once all workloads have finished, and every workload's output (frame bytes / parsed events) is "
     "identical to its solo run in a PRISTINE process (a fresh interpreter forks one child per baseline request, so no "
     "process-wide cache, class attribute or registry warmed by earlier cases can leak into the baseline). (c) real threads (start barrier, switch interval 1e-6 s) each running a "
     "workload repeatedly, compared with the solo bytes. (d) subprocesses with PYTHONHASHSEED in {0,1,2,random} serialising "
@@ -343,7 +343,35 @@ def play_history(case, shared=None):
             pass
 
 
+def process_state():
+    """Process-wide knobs a serializer / parser has no business leaving changed (other code in the process reads them)."""
+    import decimal
+    import locale
+    import warnings
+
+    import rdflib
+
+    ctx = decimal.getcontext()
+    return {"rdflib.NORMALIZE_LITERALS": rdflib.NORMALIZE_LITERALS, "recursionlimit": sys.getrecursionlimit(),
+            "decimal.prec": ctx.prec, "decimal.rounding": ctx.rounding, "switchinterval": sys.getswitchinterval(),
+            "cwd": os.getcwd(), "locale": locale.setlocale(locale.LC_ALL), "warnings.filters": len(warnings.filters),
+            "sys.path": len(sys.path), "environ": len(os.environ)}
+
+
 def body_interleave(case, acc):
+    before = process_state()
+    v = _body_interleave(case, acc)
+    if v is not None:
+        return v
+    after = process_state()
+    changed = {k: (before[k], after[k]) for k in before if before[k] != after[k]}
+    if changed:
+        return Violation("C12:process-state-changed:" + sorted(changed)[0], f"process-wide state differs after the workloads "
+                         f"ran to completion (before, after): {changed!r}", case)
+    return None
+
+
+def _body_interleave(case, acc):
     wl = case["workloads"]
     try:
         want = [pristine_solo({**w, "fresh_each": True} if w.get("entry") == "serializer_object_twice" else w) for w in wl]
